@@ -530,7 +530,7 @@ Qed.
 Lemma with_dir_entry_mut_cohX : forall s dids id f s' u,
   DirCohX [] s dids -> with_dir_entry_mut id f s = (s', Ok u) -> DirCohX [] s' dids.
 Proof.
-  intros s dids id f s' u HC H. unfold with_dir_entry_mut in H.
+  intros s dids id f s' u HC H. apply with_dir_entry_mut_ok_inv in H. unfold with_dir_entry_mut_inner in H.
   binv H e s1 H1 H2. apply dir_entry_inv in H1. destruct H1 as [-> He].
   binv H2 u1 s2 H2 H3.
   destruct (cohX_set _ _ _ _ _ _ _ HC H2) as (HC2 & _ & _).
